@@ -83,6 +83,11 @@ class H(semh.Base):
             wrap = {"global": "%s", "if": "if ( true ) { %s }", "while": "while ( true ) { %s }", "for": "for int i in [ 0 : 1 ] { %s }",
                     "def": "def f ( ) { %s }", "else": "if ( true ) { } else { %s }"}[where]
             return T(wrap % decl, {"w": ("INT_NUMBER", cs)})
+        if k == "radix":       # T[0x..] x; : the width literal in another radix
+            _, ty, radix, nd = self.task
+            cs, w = self.sym_digits_radix(ex, "w", nd, radix)
+            self.want_w = w
+            return T("qubit [ $w ] x ;" if ty == "qubit" else f"{ty} [ $w ] x ;", {"w": ("INT_NUMBER", cs)})
         if k == "nowidth":
             _, ty, const = self.task
             init = {"int": "1", "uint": "1", "float": "1.0", "angle": "1.0", "bit": '"1"', "bool": "true", "duration": "1 ns", "stretch": "1 ns", "complex": "1.0"}[ty]
@@ -138,9 +143,9 @@ class H(semh.Base):
             if len(hits) != 1:
                 raise Violation(f"{len(hits)} symbols named `{name}` in the final table (expected one)")
             return R.symbols[hits[0]]["typ"]
-        if k in ("scalar", "qubit", "io") and self.want_w is not None:
+        if k in ("scalar", "qubit", "io", "radix") and self.want_w is not None:
             w = self.want_w
-            if k == "qubit":
+            if k == "qubit" or (k == "radix" and self.task[1] == "qubit"):
                 t = sym("x")
                 ok = t.v == "QubitArray" and t[0].v == "D1"
                 cond = val_eq(t[0][0], w) if ok else None
@@ -293,6 +298,10 @@ def build_tasks(quick):
         for const in (False, True):
             if not (const and ty in ("angle", "bit", "stretch")):
                 tasks.append(("nowidth", ty, const))
+    for ty in ("int", "bit", "qubit") if quick else WIDTH_TYPES + ["qubit"]:
+        for radix, nds in ((16, (1, 2, 8, 9)), (8, (2, 11, 12)), (2, (3, 32, 33))):
+            for nd in (nds[:2] + nds[-1:] if quick else nds):
+                tasks.append(("radix", ty, radix, nd))
     tasks.append(("qubit", None))
     for nd in digits:
         tasks.append(("qubit", nd))
@@ -336,9 +345,9 @@ def run(ctx):
     res.functions_encoded += ["oq3_semantics::syntax_to_semantics::{scalar_type_to_type, designator_to_asg, classical_declaration_statement_to_asg_stmt, bind_parameter_list, bind_typed_parameter_list, stmt_to_asg_stmt (Gate, Def, QuantumDeclaration arms)}",
                               "oq3_semantics::asg::<impl TryFrom<&TExpr> for u32>", "oq3_semantics::symbols::SymbolTable::{new_binding, gates}", "oq3_semantics::context::Context::standard_library_gates",
                               "oq3_syntax::ast::token_ext::IntNumber::value (from_str_radix model, exact)"]
-    res.bounds.update({"width_digits": "1..11 decimal digits (quick: 1,2,3,5,9,10,11; thorough 1..12)", "gate_signatures": "0-4 parameters x 1-4 qubits", "def_signatures": "0-4 parameters, 5 return types", "templates": len(tasks)})
+    res.bounds.update({"width_digits": "1..11 decimal digits (quick: 1,2,3,5,9,10,11; thorough 1..12); hex 1-9, octal 2-12, binary 3-33 digits", "gate_signatures": "0-4 parameters x 1-4 qubits", "def_signatures": "0-4 parameters, 5 return types", "templates": len(tasks)})
     res.stubs += ["rowan tree model", "hashbrown map model", "from_str_radix (exact arithmetic over the digit characters)"]
-    res.outside_claim += ["hex/octal/binary width literals and underscores (C10 proves value_u128 for them)", "array declarations (the analyser does not support them; C03)"]
+    res.outside_claim += ["underscores in width literals (C10 proves value_u128 for them)", "array declarations (the analyser does not support them; C03)"]
     res.exhaustive = not res.inconclusive
     return res
 
